@@ -18,8 +18,10 @@ import (
 	"time"
 
 	quic "github.com/refraction-networking/uquic"
+	"github.com/quic-go/qpack"
 	"github.com/refraction-networking/uquic/internal/verifmc/explore"
 	"github.com/refraction-networking/uquic/internal/verifmc/sim"
+	"github.com/refraction-networking/uquic/quicvarint"
 	tls "github.com/refraction-networking/utls"
 )
 
@@ -56,7 +58,7 @@ var c18CScripts = []c18Script{
 	{Name: "uni-control-goaway-server-stream-id", NoCtrl: true, Uni: [][]byte{append(append([]byte{0x0}, c18SettingsBytes()...), (&goAwayFrame{StreamID: 1}).Append(nil)...)}, ConnErr: uint64(ErrCodeIDError)},
 }
 
-func quicvarintAppend(v uint64) []byte { return c18Frame{T: v}.bytes()[:len(c18Frame{T: v}.bytes())-1] }
+func quicvarintAppend(v uint64) []byte { return quicvarint.Append(nil, v) }
 
 func c18CScriptByName(name string) (c18Script, bool) {
 	for _, s := range c18CScripts {
@@ -151,7 +153,10 @@ func c18RawCRun(t *testing.T, c c18RawCCase) c18RawOutcome {
 		out.fails = append(out.fails, explore.Failf("harness-unknown-script", "%q", c.Script))
 		return out
 	}
-	msg := c18Msg{CLog: c.CLog, Gzip: c.Gzip, ReqBody: 2}
+	msg := c18Msg{CLog: c.CLog, Gzip: c.Gzip}
+	if c.Cut >= 0 && (c.Act == 2 || c.Act == 3) {
+		msg.ReqBody = 4 // 70000 bytes: STOP_SENDING arrives while the request body is being sent
+	}
 	x := &c18Exec{c: c18Case{Msg: msg}, msgs: []c18Msg{msg, msg}, srv: make([]c18SrvObs, 2), cli: make([]c18CliObs, 2), startOk: make([]bool, 2)}
 	var notes []string
 	var noteMu sync.Mutex
@@ -348,19 +353,15 @@ func c18RawServer(ctx context.Context, x *c18Exec, conn *quic.Conn, sc c18Script
 				return
 			}
 			script, cc := "HDU", c18RawCCase{Split: -1, Cut: -1}
-			idx := 1
 			if first && sc.Uni == nil && sc.Name != "plain" {
 				script, cc = sc.Frames, c
-			}
-			if first && sc.Name != "plain" {
-				idx = 0
 			}
 			wasFirst := first
 			first = false
 			wg.Add(1)
 			go func() {
 				defer wg.Done()
-				c18RawServeStream(conn, str, script, idx, cc)
+				c18RawServeStream(conn, str, script, cc)
 				if wasFirst {
 					close(streamVerdict)
 				}
@@ -400,8 +401,48 @@ func c18RawServer(ctx context.Context, x *c18Exec, conn *quic.Conn, sc c18Script
 	}
 }
 
-func c18RawServeStream(conn *quic.Conn, str *quic.Stream, letters string, idx int, c c18RawCCase) {
+// c18RequestIdx finds the x-idx field in the bytes of a request stream.
+func c18RequestIdx(b []byte) int {
+	rd := bytes.NewReader(b)
+	for rd.Len() > 0 {
+		t, err := quicvarint.Read(rd)
+		if err != nil {
+			return 0
+		}
+		l, err := quicvarint.Read(rd)
+		if err != nil || uint64(rd.Len()) < l {
+			return 0
+		}
+		p := make([]byte, l)
+		io.ReadFull(rd, p)
+		if t != 0x1 {
+			continue
+		}
+		next := qpack.NewDecoder().Decode(p)
+		for {
+			hf, err := next()
+			if err != nil {
+				return 0
+			}
+			if hf.Name == "x-idx" {
+				n, _ := strconv.Atoi(hf.Value)
+				return n
+			}
+		}
+	}
+	return 0
+}
+
+func c18RawServeStream(conn *quic.Conn, str *quic.Stream, letters string, c c18RawCCase) {
 	pause := func() { time.Sleep(2 * time.Millisecond) }
+	idx := 0
+	if c.Cut >= 0 && (c.Act == 2 || c.Act == 3) {
+		str.CancelRead(quic.StreamErrorCode(ErrCodeRequestCanceled))
+	} else {
+		str.SetReadDeadline(time.Now().Add(10 * time.Second))
+		req, _ := io.ReadAll(str)
+		idx = c18RequestIdx(req)
+	}
 	m := c18BuildRespFrames(letters, idx)
 	var all []byte
 	var bounds []int
@@ -410,12 +451,6 @@ func c18RawServeStream(conn *quic.Conn, str *quic.Stream, letters string, idx in
 		all = append(all, f.bytes()...)
 	}
 	bounds = append(bounds, len(all))
-	if c.Cut >= 0 && (c.Act == 2 || c.Act == 3) {
-		str.CancelRead(quic.StreamErrorCode(ErrCodeRequestRejected + 1)) // H3_REQUEST_CANCELLED
-	} else {
-		str.SetReadDeadline(time.Now().Add(10 * time.Second))
-		io.Copy(io.Discard, str)
-	}
 	switch {
 	case c.Cut >= 0 && c.Cut < len(bounds):
 		at := bounds[c.Cut]
